@@ -50,22 +50,6 @@ theorem mem_recsFor_mem (sec pt : String) (rule : Rule) (lines : List Rule) :
         rw [memRecords_tag, recsFor_single]; simp
       · exact Or.inr h
 
-/-- `List.erase` does not depend on which lawful `BEq` instance elaboration picked -/
-theorem erase_inst_irrel {α : Type} [DecidableEq α] [b : BEq α] [LawfulBEq α] (l : List α) (a : α) :
-    @List.erase _ instBEqOfDecidableEq l a = @List.erase _ b l a := by
-  induction l with
-  | nil => rfl
-  | cons x xs ih =>
-    simp only [List.erase_cons]
-    rw [ih]
-    have : (@BEq.beq _ instBEqOfDecidableEq x a) = (@BEq.beq _ b x a) := by
-      by_cases h : x = a
-      · subst h; simp
-      · have h1 : (@BEq.beq _ b x a) = false := by simpa using h
-        have h2 : (@BEq.beq _ instBEqOfDecidableEq x a) = false := by simpa using h
-        rw [h1, h2]
-    rw [this]
-
 /-- erasing a tagged line from the adapter's lines erases the rule from the records of its own
 policy type and leaves every other type's records alone -/
 theorem recsFor_erase (sec pt sec' pt' : String) (rule : Rule) (lines : List Rule) :
